@@ -48,7 +48,7 @@ type Case struct {
 
 func setup() {
 	c := ev.C()
-	c.Rule = "a scripted exchange (handshake + NReq requests answered in order) with one stream fault: injected at every message index on the send side (the At-th Send fails; or stalls under flow control and then fails) and on the receive side (after At responses), for each status class {EOF, Unavailable, Internal, Canceled}, while the application queues a burst of 0..12 further requests, followed by Close, or by Reset + ReplaceStub + Connect + a further exchange. The full product over small parameters is enumerated (quick: NReq<=3, burst in {0,1,6,12}; thorough: NReq<=6, burst 0..12) plus rapid-drawn cases. Oracle: Done() fires; every Q call returns; the error is recorded in Status(); AwaitConverged returns a *ClientErr (never nil, never only the context error) within the watchdog; Close/Reset return; no goroutine with gribigo/client frames is left (goroutine dump census); after Reset+Connect the client has no pending operations, results or errors and a new exchange converges. A clean EOF on the receive side is not an error: then only termination, Q, Close/Reset and the census are asserted, and AwaitConverged must not report convergence while operations are unanswered. Non-trivial = burst >= 1 at the time of the fault, or fault index > 0; distinct by FNV-64 of the case JSON."
+	c.Rule = "a scripted exchange (handshake + NReq requests answered in order) with one stream fault: injected at every message index on the send side (the At-th Send fails; or stalls under flow control and then fails) and on the receive side (after At responses), for each status class {EOF, Unavailable, Internal, Canceled}, while the application queues a burst of 0..12 further requests, followed by Close, or by Reset + ReplaceStub + Connect + a further exchange. The full product over small parameters is enumerated (quick: NReq<=3, burst in {0,1,6,12}; thorough: NReq<=6, burst 0..12) plus rapid-drawn cases. Oracle: Done() fires; every Q call returns; the error is recorded in Status(); AwaitConverged returns a *ClientErr (never nil, never only the context error) within the watchdog; Close/Reset return; no goroutine with gribigo/client frames is left (goroutine dump census); after Reset+Connect the client has no pending operations, results or errors, the new stream carries exactly the messages of a fresh client (parameters, election id, the new request) and a new exchange converges. A clean EOF on the receive side is not an error: then only termination, Q, Close/Reset and the census are asserted, and AwaitConverged must not report convergence while operations are unanswered. Non-trivial = burst >= 1 at the time of the fault, or fault index > 0; distinct by FNV-64 of the case JSON."
 	c.Assumptions = []string{"the stub obeys the gRPC client-stream contract: a failed Send returns io.EOF and the status is delivered by Recv; after CloseSend the server ends the stream with io.EOF"}
 }
 
@@ -361,6 +361,18 @@ func runCase(c Case) *ev.Verdict {
 			fail("reconnect-not-sending", "after Reset+Connect the new stream received %d of 3 messages", len(st2.SentCopy()))
 			return v
 		}
+		// a fresh client sends its parameters, its election id and the new request - nothing else
+		freshStream := func(when string) bool {
+			sent := st2.SentCopy()
+			if len(sent) != 3 || sent[0].GetParams() == nil || sent[1].GetElectionId() == nil || len(sent[2].GetOperation()) != 1 || sent[2].GetOperation()[0].GetId() != 1000 {
+				fail("reconnect-stale-messages", "%s the new stream carries %d messages, want [parameters, election id, operation 1000]: %v (%s/%s at %d, burst %d)", when, len(sent), sent, c.Side, c.Class, c.At, c.Burst)
+				return false
+			}
+			return true
+		}
+		if !freshStream("after Reset+Connect and one queued request") {
+			return v
+		}
 		st2.Respond(&spb.ModifyResponse{SessionParamsResult: &spb.SessionParametersResult{}})
 		st2.Respond(&spb.ModifyResponse{ElectionId: &spb.Uint128{Low: 1}})
 		respond(st2, 1000, c.FIB)
@@ -375,6 +387,9 @@ func runCase(c Case) *ev.Verdict {
 		wantRes := 3
 		if c.FIB {
 			wantRes = 4 // RIB and FIB acknowledgement
+		}
+		if !freshStream("after the fresh exchange converged") {
+			return v
 		}
 		if len(res) != wantRes {
 			fail("reconnect-stale-results", "after Reset+Connect and one exchange Results() has %d entries, want %d: %v", len(res), wantRes, res)
